@@ -13,6 +13,42 @@ EXEC_ASSUME = [
 ]
 
 prop("C01",
+     level_text="generated-input search (rapid): schemas x valid documents x variables x resolver outcomes; Do, Execute and PlanQuery+ExecutePlan compared with an independent interpreter of the execution algorithm",
+     note="trusts the reference interpreter's reading of the spec (DESIGN §3.4) and the generators' reach; says nothing beyond the explored cases",
+     technique="property-based testing (rapid) against a reference-model oracle",
      rule="rapid draws schema model x valid-by-construction document x coercible variables x resolver-outcome table; each case runs Do, Execute and PlanQuery+ExecutePlan (twice) and compares data (JSON) and the (path,class) error multiset with an independent interpreter of the execution algorithm. Non-trivial = document has a duplicated response key, a fragment spread twice, a variable-driven directive, several operations, an abstract position resolving to >=2 runtime types, or a null propagating >=2 levels; distinct by hash of the whole case.",
      assumptions=EXEC_ASSUME,
      runs=[dict(test="^TestC01$", quick=dict(checks=4000), thorough=dict(checks=40000, shards=16, timeout=3000))])
+
+prop("C04",
+     level_text="generated-input search (rapid) with an adversarial outcome for about half of all reachable resolver / type-resolver / isTypeOf invocations; oracle = intrinsic response-conformance predicate + equality with the reference interpreter + no panic + JSON-serialisable",
+     note="conformance predicate and reference interpreter are the harness's own (harness/ref); deferred failures in non-null positions are not generated (ambiguous ordering, DESIGN §3.4) except the canonical reproducer of KF-C04-thunk-nonnull",
+     technique="property-based testing (rapid): fault injection into resolvers, validity predicate + reference-model oracle",
+     rule="C01 generator with outcome table drawn adversarially (nil, typed nil, error, value+error, panic with error/string/int, thunks that succeed/fail/yield nil, non-iterable for list, unserialisable / NaN / Inf / out-of-range / unknown-enum leaves, type resolver returning nil or a non-member, isTypeOf lying) at ~50% of reachable positions. Non-trivial = at least one override below the root level and at least one field error or thunk actually reached; distinct by hash of the case.",
+     assumptions=EXEC_ASSUME,
+     runs=[dict(test="^TestC04$", quick=dict(checks=4000), thorough=dict(checks=40000, shards=16, timeout=3000))])
+
+MANIFEST_HEAD = {
+    "version": 1,
+    "setup_cmd": "cd /verif && ./check --setup",
+    "hooks": {
+        "guard": "verif",
+        "enable": "go test -tags verif (the harness module /verif/harness replaces github.com/graphql-go/graphql with /repo)",
+        "baseline_off_cmd": "cd /repo && GOFLAGS=-mod=mod GOPROXY=off GOSUMDB=off go test -vet=off -count=1 -timeout 25m ./...",
+        "source_commits": [],
+        "add_only": True,
+    },
+    "engines": [
+        {"name": "props", "path": "harness/props", "serves_properties": [],
+         "kind_free_text": "rapid v1.3.0 property tests (plus native go fuzz targets) against reference implementations written over plain-data models (harness/ref, harness/syn)"},
+        {"name": "check", "path": "check", "serves_properties": [],
+         "kind_free_text": "python3 driver: builds the harness from /repo's working tree, shards runs, merges evidence, maps outcomes to exit codes"},
+    ],
+    "notes": "All checks: ./check <ID> quick|thorough; VERIF_SEED selects the rapid seed family. Known findings: KNOWN_FINDINGS.txt.",
+}
+
+# Properties not (yet) claimed, each with a reason; entries for claimed properties are dropped.
+NOT_APPLICABLE = [
+    {"property_id": p, "reason": "check not built yet in this session (planned, see DESIGN.md §4); not a limitation of the technique"}
+    for p in ["C02", "C03", "C05", "C06", "C07", "C08", "C09", "C10", "C11", "C12", "C13", "C14", "C15", "C16", "C17", "C18", "C19", "C20"]
+]
